@@ -8,6 +8,7 @@ import (
 
 	"verifharness/internal/ev"
 
+	"verifharness/gl/c02"
 	"verifharness/gl/c07"
 	"verifharness/gl/c10"
 	"verifharness/gl/c11"
@@ -35,6 +36,7 @@ var cmds = map[string]func([]string) int{
 	"C04": c04.Main,
 	"C05": c05.Main,
 	"C06": c06.Main,
+	"C02": c02.Main,
 	"C07": c07.Main,
 	"C08": c08.Main,
 	"C09": c09.Main,
